@@ -434,8 +434,11 @@ def _net_run(pm, v):
     s = NetSource("localhost", 0, "beast")
     s.stop_flag = Flag()
     s.raw_pipe_in = Pipe()
+    import random as _r
+    rr = _r.Random(len(v["batches"]) * 7919 + sum(len(b) for b in v["batches"]))
     for batch in v["batches"]:
-        s.handle_messages([[bytes(m).hex().upper(), 1.0 + k] for k, m in enumerate(batch)])
+        # time stamps as the readers deliver them need not increase (the Skysense reader takes them from the frame)
+        s.handle_messages([[bytes(m).hex().upper(), rr.choice([1.0 + k, 86399.5 - k, rr.random() * 100])] for k, m in enumerate(batch)])
     adsb, commb, nts = [], [], 0
     for d in s.raw_pipe_in.sent:
         adsb += d["adsb_msg"]
@@ -715,3 +718,8 @@ def _link_run(pm, v):
     finally:
         _time.time = real_time
     return {"t": "steps", "v": steps}
+
+
+@reg("common.bin2hex_frame")
+def _b2hf(pm, v):
+    return enc.res(pm.common.bin2hex("".join(format(b, "08b") for b in v["frame"])))
